@@ -4,13 +4,13 @@ import json, os
 V = os.path.dirname(os.path.dirname(os.path.abspath(__file__)))
 props = [json.loads(l) for l in open(os.path.join(V, "properties.jsonl"))]
 CLAIMED = {
- "C01": dict(text="Theorems (coq/Props/C01.v): at real arithmetic the propensity model reached through create_propensity's dispatch equals the documented closed forms for EVERY reactant list (any order), every non-negative state, every V>0, in all four modes (mass action incl. clamped falling factorial and its zero/factorial characterisation; four Hill kinds); interface theorems (plain loop; safe zeroing; scan within bounds) for any arithmetic. Hand model tied by running the extracted model at doubles against Propensity objects and plain/safe interfaces (guarded probes), plus an independent closed-form oracle.",
-             note="hand model (Propensity.v, Interface.v), correspondence only; reals axioms; Cython ** vs libm pow tolerance 1e-12; rounding outside the theorems",
-             tech="Rocq proof over R (list induction, multiplicity-table invariant) + extracted-model correspondence", sec="4/C01"),
+ "C01": dict(text="Theorems (coq/Props/C01.v): at real arithmetic the propensity model reached through create_propensity's dispatch equals the documented closed forms for EVERY reactant list (any order), every non-negative state, every V>0, in all four modes (mass action incl. clamped falling factorial and its zero/factorial characterisation; four Hill kinds); interface theorems (plain loop; safe zeroing; scan within bounds) for any arithmetic. Hand model tied by running the extracted model at doubles against Propensity objects and plain/safe interfaces (guarded probes), plus an independent closed-form oracle. TRANSLATOR TIE: the four evaluators of the eight propensity classes are REGENERATED from bioscrape/types.pyx + types.pxd on every run (tools/tr_propensity.py -> coq/Gen/PropensityGen.v, virtual calls resolved through the inheritance chain) and proved equal to the hand model's prop_eval for ANY arithmetic (C01_source_tie); C01_source_massaction / C01_source_hill restate the closed forms for the regenerated definitions; an edit of an evaluator breaks the tie lemma.",
+             note="evaluators: translator + proved tie; dispatch / initialize / interfaces: hand model (Propensity.v, Interface.v), correspondence only; reals axioms; Cython ** vs libm pow tolerance 1e-12; rounding outside the theorems",
+             tech="source-to-Gallina translator with proved tie to the hand model + Rocq proof over R (list induction, multiplicity-table invariant) + extracted-model correspondence", sec="4/C01"),
  "C03": dict(text="Theorems (coq/Props/C03.v): every entry of S and Sd built by the model of create_reaction/_create_stochiometric_matrices equals count(products) - count(reactants) for any reaction list, any declaration order (row located through the index map); the reported derivative is the sum over reactions of (S+Sd) x rate (over R); initialisation fails iff some parameter has no value. Tied by correspondence on random reaction lists / declaration orders (exact integers, bit-exact derivative) and a count-based oracle.",
              note="hand model (Builder.v); correspondence only; propensity encodings read from the built model", tech="Rocq proof (association-list and fold lemmas) + extracted-model correspondence + sampled cases evaluated inside Coq (vm_compute Examples generated per run)", sec="4/C03"),
- "C20": dict(text="Theorems (coq/Props/C20.v): refinement of the ring buffer to an abstract pending-at-offset table (any arithmetic, any amount monoid); exactly-once / at-the-scheduled-slot for every history of adds and read-and-advances of any length (entries tagged with identities); in-order clock; nearest-slot with clamping over the reals; conservation by binomial partition for every stream. Tied by running the extracted model at doubles against ArrayDelayQueue's py_* API on random op sequences (exact, draw counts included) and an exact-rational abstract-table oracle.",
-             note="hand model (Queue.v), correspondence only; reals axioms for nearest/partition; copy independence observed on the implementation only", tech="Rocq proof (refinement + induction over histories) + extracted-model correspondence + sampled histories evaluated inside Coq over exact rationals (vm_compute Examples generated per run)", sec="4/C20"),
+ "C20": dict(text="Theorems (coq/Props/C20.v): refinement of the ring buffer to an abstract pending-at-offset table (any arithmetic, any amount monoid); exactly-once / at-the-scheduled-slot for every history of adds and read-and-advances of any length (entries tagged with identities); in-order clock; nearest-slot with clamping over the reals; conservation by binomial partition for every stream. Tied by running the extracted model at doubles against ArrayDelayQueue's py_* API on random op sequences (exact, draw counts included) and an exact-rational abstract-table oracle. TRANSLATOR TIE: ArrayDelayQueue.set_current_time, add_reaction, get_next_queue_time, get_next_reactions and advance_time are REGENERATED from bioscrape/simulator.pyx + simulator.pxd on every run (tools/tr_queue.py -> coq/Gen/QueueGen.v) and proved to simulate the hand model step for step for ANY arithmetic and ANY history (C20_source_methods, C20_source_history), so the theorems above speak about the current source; constructor / copy / clear_copy / binomial_partition stay with the correspondence.",
+             note="five methods: translator + proved simulation; the rest: hand model (Queue.v), correspondence only; reals axioms for nearest/partition; copy independence observed on the implementation only", tech="source-to-Gallina translator with proved simulation of the hand model + Rocq proof (refinement + induction over histories) + extracted-model correspondence + sampled histories evaluated inside Coq over exact rationals (vm_compute Examples generated per run)", sec="4/C20"),
 }
 PENDING_REASON = "check under construction in this round (DESIGN.md section 8 gives the order); not claimed yet"
 try:
